@@ -153,9 +153,37 @@ static inline void std_sort3(QLst *b, QLst *e, int order)
   MODEL_LIMIT(b == e, "std::sort over begin()/end() of two different containers");
   sort_orders_agree(b->id, b->n, order);
   b->id = l_sorted(b->id, b->n, order);
+  __CPROVER_assume(l_sorted(b->id, b->n, order) == b->id);      /* sorting a sorted list changes nothing */
 }
 static inline void std_sort2(QLst *b, QLst *e) { std_sort3(b, e, ORDER_STR_LT); }
-static inline void qlst_sort(QLst *l) { sort_orders_agree(l->id, l->n, ORDER_STR_LT); l->id = l_sorted(l->id, l->n, ORDER_STR_LT); }   /* QStringList::sort(Qt::CaseSensitive) */
+static inline void qlst_sort(QLst *l) { std_sort3(l, l, ORDER_STR_LT); }   /* QStringList::sort(Qt::CaseSensitive) */
+/* A-STD-UNIQUE  l.erase(std::unique(l.begin(), l.end()), l.end()) keeps one element of every run of ADJACENT equal elements: a function
+   UNIQ of the list.  It is the duplicate-free list of A-DEDUP only when equal elements are adjacent, which is known here for
+   a list that is sorted by QString's order; for any other list nothing relates UNIQ to the duplicate-free list.
+   std::unique alone leaves the tail unspecified; only the erase-unique idiom on one container is represented. */
+int __CPROVER_uninterpreted_list_uniq(int l, int n);
+int __CPROVER_uninterpreted_list_uniq_n(int l, int n);
+/* between the two calls the list value is a marker "unique pending on (list, n)" from which the erase recovers the operands */
+int __CPROVER_uninterpreted_list_uniq_pending(int l, int n);
+int __CPROVER_uninterpreted_list_uniq_pending_src(int p);
+bool __CPROVER_uninterpreted_list_is_uniq_pending(int p);
+static inline QLst *std_unique(QLst *b, QLst *e)
+{
+  MODEL_LIMIT(b == e, "std::unique over begin()/end() of two different containers");
+  int p = __CPROVER_uninterpreted_list_uniq_pending(b->id, b->n);
+  __CPROVER_assume(__CPROVER_uninterpreted_list_uniq_pending_src(p) == b->id && __CPROVER_uninterpreted_list_is_uniq_pending(p));
+  b->id = p;                                                  /* front compacted, tail unspecified */
+  return b;
+}
+static inline void qlst_erase(QLst *l, QLst *first, QLst *last)
+{
+  MODEL_LIMIT(first == l && last == l && __CPROVER_uninterpreted_list_is_uniq_pending(l->id), "QList::erase other than l.erase(std::unique(l.begin(), l.end()), l.end())");
+  int src = __CPROVER_uninterpreted_list_uniq_pending_src(l->id), n = l->n;
+  int id = n <= 1 ? src : __CPROVER_uninterpreted_list_uniq(src, n), m = n <= 1 ? n : __CPROVER_uninterpreted_list_uniq_n(src, n);
+  __CPROVER_assume(0 <= m && m <= n && (n == 0 || m >= 1));
+  if (l_sorted(src, n, ORDER_STR_LT) == src) __CPROVER_assume(id == l_dedup(src, n) && m == l_dedup_n(src, n));
+  l->id = id; l->n = m;
+}
 static inline int qlst_removeDuplicates(QLst *l)
 {
   int n = l->n, m = l_dedup_n(l->id, n);
